@@ -655,6 +655,7 @@ class C14World(PcWorld):
         expect = None            # "ok" | set of acceptable exception names
         new_state = st
         call = None
+        self._applied_text = None
         desc_note = ""
         if name == "createOffer":
             expect = "ok" if st != "closed" else {"InvalidStateError"}
@@ -750,7 +751,7 @@ class C14World(PcWorld):
                     expect = {"ValueError"} if legal else {"ValueError", "InvalidStateError"}
                 else:
                     expect, new_state = ("ok", "have-remote-offer") if legal else ({"InvalidStateError"}, st)
-                self._last_text = text
+                self._applied_text = text
                 call = lambda: pc.setRemoteDescription(RTCSessionDescription(sdp=text, type="offer"))   # noqa: E731
             else:
                 legal = st == "have-local-offer"
@@ -830,10 +831,15 @@ class C14World(PcWorld):
         pend = getattr(self, "pending_offer", None)
         if pend is None:
             pend = self.pending_offer = {}
+        if not name.startswith("set"):
+            return                                  # createOffer / createAnswer set nothing
         if new_state == "have-local-offer" and pc.localDescription is not None:
             pend[n] = pc.localDescription.sdp
         elif new_state == "have-remote-offer" and pc.remoteDescription is not None:
-            pend[n] = getattr(self, "_last_text", None) or pc.remoteDescription.sdp
+            # the text this very call applied (recorded by apply() just before the call)
+            pend[n] = self._applied_text or pc.remoteDescription.sdp
+            # an answer created for the offer that was pending before is not an answer to this one
+            self.fresh_answer[n] = None
         elif new_state == "stable" and st in ("have-local-offer", "have-remote-offer") and n in pend:
             ans = pc.remoteDescription if st == "have-local-offer" else pc.localDescription
             if ans is not None and ans.type == "answer":
